@@ -24,6 +24,17 @@ Definition onnx_slice (d s e st : Z) : option (list Z) :=
     if 0 <? st then Some (range_list (clamp 0 d s') (clamp 0 d e') st)
     else Some (range_list (clamp 0 (d - 1) s') (clamp (-1) (d - 1) e') st).
 
+(* Where ONNX Slice and Python disagree although the operands are passed through unchanged: a negative
+   step, a start below -d (Python: "before the first element", nothing is selected; ONNX: clamped to 0)
+   and a stop that is omitted or also below -d.  ONNX then selects element 0. *)
+Definition neg_start_hazard (d : Z) (start stop step : option Z) : bool :=
+  match step, start with
+  | Some st, Some s =>
+      (st <? 0) && (1 <=? d) && (s <? - d) &&
+      match stop with None => true | Some e => e <? - d end
+  | _, _ => false
+  end.
+
 (* Gather: "All index values are expected to be within bounds [-s, s-1] along axis of size s.
    It is an error if any of the index values are out of bounds." *)
 Definition gather_index (d i : Z) : option Z :=
@@ -56,17 +67,18 @@ Fixpoint map_keeps (f : nat -> list Z -> option sel) (k : nat) (v : view) : opti
 
 Definition pick_all (l : list Z) (js : list Z) : list Z := map (fun j => nth (Z.to_nat j) l 0) js.
 
+Definition spec_axis (x : spec) : nat := let '(_, _, a, _) := x in a.
+
 Fixpoint lookup_spec (k : nat) (specs : list spec) : option spec :=
   match specs with
   | [] => None
-  | ((s, e, a, st) as x) :: t => if Nat.eqb a k then Some x else lookup_spec k t
+  | x :: t => if Nat.eqb (spec_axis x) k then Some x else lookup_spec k t
   end.
 
-Fixpoint nodupb (l : list nat) : bool :=
-  match l with [] => true | x :: t => negb (existsb (Nat.eqb x) t) && nodupb t end.
-(* axes must address existing axes; "behavior is undefined if an axis is repeated" -> error here *)
-Definition axes_ok (n : nat) (axes : list nat) : bool :=
-  forallb (fun a => Nat.ltb a n) axes && nodupb axes.
+(* axes must address existing axes.  ("Behavior is undefined if an axis is repeated": the front ends never
+   repeat an axis -- every index position contributes at most one entry -- and the model lets the first
+   entry win.) *)
+Definition axes_ok (n : nat) (axes : list nat) : bool := forallb (fun a => Nat.ltb a n) axes.
 
 Definition slice_f (specs : list spec) (k : nat) (l : list Z) : option sel :=
   match lookup_spec k specs with
@@ -88,8 +100,6 @@ Definition gather_sel (l : list Z) (ix : gidx) : option sel :=
 
 Definition gather_f (a : nat) (ix : gidx) (k : nat) (l : list Z) : option sel :=
   if Nat.eqb k a then gather_sel l ix else Some (Keep l).
-
-Definition spec_axis (x : spec) : nat := let '(_, _, a, _) := x in a.
 
 Definition run_op (o : op) (v : view) : option view :=
   match o with
